@@ -83,7 +83,7 @@ def run(chk, ctx):
     data = f.data
     if f.header is None:
         raise AnalysisError('no header read in frame.unmarshal')
-    hsize = T.fmt(f.header.args[0]).size
+    hsize = f.header.size
     size_t = f.hfield(2)
     seen = set()
     for r in f.rets:
@@ -99,6 +99,16 @@ def run(chk, ctx):
             chk.ob('C18.B', 'body decode', okk,
                    'value = %s' % T.show(val)[:120],
                    detail={'expected': 'buffer[7 : 7 + size]'}, site=site)
+            acc = r.kn.lin_interval(size_t)
+            a_lo = acc[0] if acc[0] is not None else 0
+            a_hi = acc[1] if acc[1] is not None else (1 << 32) - 1
+            fmax = st_it.global_value(prog.module('constants'),
+                                      'FRAME_MAX_SIZE')
+            chk.ob('C18.B', 'body sizes', a_lo <= 1 and
+                   isinstance(fmax, int) and a_hi >= fmax,
+                   'decoder accepts body sizes [%d, %d]; every non-empty '
+                   'body up to FRAME_MAX_SIZE = %r must be accepted' %
+                   (a_lo, a_hi, fmax), site=site)
             # information flow: no atom reads payload bytes
             bad = []
             for a in r.kn.atoms:
